@@ -155,11 +155,11 @@ def write_workspace(root, insts, repo='/repo', shards=16, crate_prefix='s', host
         os.makedirs(os.path.join(cdir, 'src'), exist_ok=True)
         with open(os.path.join(cdir, 'Cargo.toml'), 'w') as f:
             f.write('[package]\nname = "%s"\nversion = "0.0.0"\nedition = "2021"\n[lib]\npath = "src/lib.rs"\n[dependencies]\nenum-tools = { path = "%s" }\n' % (cname, repo))
-        lines = ['#![allow(dead_code, unused_imports, non_camel_case_types, non_snake_case, non_upper_case_globals)]', 'pub mod pm { }']
+        lines = (['#![no_std]'] if hostile else []) + ['#![allow(dead_code, unused_imports, non_camel_case_types, non_snake_case, non_upper_case_globals, unused_macros)]', 'pub mod pm { }']
         for i in sorted(per[j]):
             x = insts[i]
             x['crate'] = cname
-            lines += D.render_module(x['id'], x['decl'], x['cfg'])
+            lines += D.render_module(x['id'], x['decl'], x['cfg'], hostile=hostile)
         with open(os.path.join(cdir, 'src', 'lib.rs'), 'w') as f:
             f.write('\n'.join(lines) + '\n')
     with open(os.path.join(root, 'Cargo.toml'), 'w') as f:
